@@ -32,7 +32,8 @@ pub fn layout_kind_of(mode: u8) -> Option<crate::spec::LayoutKind> {
         1 => Some(LayoutKind::Ws),
         2 => Some(LayoutKind::WsLine),
         3 => Some(LayoutKind::WsLineBlock),
-        _ => Some(LayoutKind::WsLineBlockPlus),
+        4 => Some(LayoutKind::WsLineBlockPlus),
+        _ => Some(LayoutKind::WsPair),
     }
 }
 
@@ -45,7 +46,7 @@ pub fn gcase(
         gen::g_bnf(p),
         gen::tapes(ninputs, tape_len),
         proptest::bool::ANY,
-        prop_oneof![8 => Just(0u8), 1 => Just(1u8), 1 => Just(2u8), 1 => Just(3u8), 2 => Just(4u8)],
+        prop_oneof![8 => Just(0u8), 1 => Just(1u8), 1 => Just(2u8), 1 => Just(3u8), 2 => Just(4u8), 2 => Just(5u8)],
     )
         .prop_map(|(spec, tapes, lines, layout_mode)| GCase { spec, tapes, lines, layout_mode })
         .boxed()
